@@ -19,11 +19,21 @@ MANIFEST = {
             "coap_new_context, the wrappers — reaches every return / loop back-edge at its entry depth, every re-lock failure action "
             "leaves the function, nothing inside a release window touches the context); window_mutex_free / "
             "api_call_enters_during_window (a thread waiting inside coap_io_process does not hold the mutex; another thread's API "
-            "call gets in). M is tied to the compiled code by "
+            "call gets in). A repeated coap_startup() is a token of M that application code may issue anywhere (repeated_startup_ignored: "
+            "it leaves global_lock and its mutex as they are, whoever holds them — all theorems quantify over programs containing it). "
+            "no_api_call_under_lock (T1: none of the ~580 functions that run under the lock — the *_lkd workers and everything reached "
+            "from them by direct calls, e.g. the keepalive / retransmission / session-expiry work of coap_io_prepare_io_lkd, and the "
+            "wrappers between lock and unlock — calls a lock-taking public API function) with lib_api_call_deadlocks_or_faults "
+            "(in M such a call blocks on the caller's own mutex, or under a lock-keeping callback violates the lock_count assert). "
+            "M is tied to the compiled code by "
             "differential runs of the real macros and lock functions: single-thread token sequences and 2..8 real threads under "
             "turn-based schedules, both lock variants; the real coap_io_process() is interrupted by a signal while another thread "
             "holds the lock in an event callback (must re-lock before returning); a failing coap_new_context() must leave the lock "
-            "free. partial: race freedom of the compiled C outside the lock protocol is only observed "
+            "free; the token sequences and schedules contain calls of the library's real coap_startup(). Observation, not theorem "
+            "(lkio): the real I/O thread is made to do its timer-driven work (keepalive ping of an idle UDP / TCP client session, "
+            "retransmission, idle server session expiry) while 1..3 workers call the API and every callback re-enters it — a watchdog "
+            "demands progress of every thread, no lock-owner assert, no API call completing inside another thread's lock-keeping "
+            "callback; schedules are also judged for overlap of critical sections from the implementation's own trace. partial: race freedom of the compiled C outside the lock protocol is only observed "
             "by a ThreadSanitizer smoke run (support, not proof); two open findings (auxiliary callbacks invoked without the macro; "
             "unsynchronised pre-check read of global_lock) are reported as KNOWN-FINDING.",
     "note": "Trusted: Lean kernel (+ propext, Classical.choice, Quot.sound), pthread mutex semantics, the T1 probe and static scan "
@@ -39,7 +49,8 @@ REQUIRED_THEOREMS = ["advertised_implies_compiled", "advertised_implies_compiled
                      "callback_sites_wrapped_partial", "internal_windows_balanced", "internal_windows_seen",
                      "window_mutex_free", "api_call_enters_during_window", "mutual_exclusion", "critical_sections_exclusive", "balanced",
                      "balanced_quiescent", "reentrancy_ok", "no_self_deadlock", "no_deadlock",
-                     "not_blocked_once_others_return", "progress", "no_assert_fails", "reentry_only_by_owner_in_callback"]
+                     "not_blocked_once_others_return", "progress", "no_assert_fails", "reentry_only_by_owner_in_callback",
+                     "repeated_startup_ignored", "no_api_call_under_lock", "held_functions_seen", "lib_api_call_deadlocks_or_faults"]
 RULE = ("(1) the build-configuration probes of the tree (CMake default; autotools defaults emulated with its AC_DEFINE values), "
         "(2) one line per COAP_API wrapper, per application-callback invocation site and per function that releases / takes the "
         "lock itself (lock balance along every path of its statement tree) found by the static scan, "
@@ -47,7 +58,9 @@ RULE = ("(1) the build-configuration probes of the tree (CMake default; autotool
         "thread through the real macros and lock functions of both variants, (4) 2..8 real threads with well-nested programs "
         "run under random turn-based schedules and then to completion, (5) TSan smoke runs (support only), "
         "(6) the real I/O loop interrupted by a signal (EINTR from epoll_wait) while another thread holds the lock; a failing "
-        "coap_new_context(); "
+        "coap_new_context(); (7) one line per function that runs under the lock (calls of the lock-taking public API made there); "
+        "token S = a repeated coap_startup() at random application-level points of (3) and (4); (8) the real I/O loop doing "
+        "timer-driven work (4 scenarios x both lock variants, 1..3 API-calling workers, all callbacks re-entering) under a watchdog; "
         "non-trivial = a sequence/schedule in which the mutex is taken at least once and a callback macro is executed, or a "
         "site / configuration line")
 TRUSTED_BASE = ["Lean 4.33 kernel; axioms allowed: propext, Classical.choice, Quot.sound (audited per theorem each run)",
@@ -57,11 +70,17 @@ TRUSTED_BASE = ["Lean 4.33 kernel; axioms allowed: propext, Classical.choice, Qu
                 "extract/lockbal.py (statement-tree parser + abstract interpretation of the lock depth relative to the function entry "
                 "over sets of (depth, branch facts); self-tested on 17 synthetic functions before every scan; calls are transparent, "
                 "so a function that hands the lock over to its caller would be reported, not followed)",
+                "extract/lockbal.py held_functions: which functions run under the lock is a may-analysis over DIRECT calls (roots: "
+                "*_lkd, functions asserting / releasing the lock, code after a coap_lock_lock); calls through function pointers are "
+                "not followed; 7 synthetic cases self-tested before every scan",
                 "harness/lockseq.c, harness/thrsmoke.c, generators, string comparison",
                 "M (CoapVerif/Model/Lock.lean) is a hand transcription of coap_threadsafe.c and of the macros of "
                 "coap_threadsafe_internal.h; checked against the compiled code on the sequences and schedules run"]
-ASSUMPTIONS = ["A1 one call of coap_lock_lock_func / coap_lock_unlock_func / one in_callback update is one atomic step (argued in Model/Lock.lean)",
-               "A2 coap_startup() has been called (coap_started = 1)",
+ASSUMPTIONS = ["library code never calls a lock-taking public API function itself (T1 no_api_call_under_lock over direct calls; "
+               "dynamically only on the timer / receive paths the lkio and smoke scenarios reach)",
+               "A1 one call of coap_lock_lock_func / coap_lock_unlock_func / one in_callback update is one atomic step (argued in Model/Lock.lean)",
+               "A2 coap_startup() has been called once before the threads start (coap_started = 1); later calls are tokens of M; "
+               "coap_cleanup() is not called while threads use the library",
                "callback nesting depth < 2^32 - 1 (in_callback and lock_count are uint32_t)",
                "every thread runs a well-nested program: application code only calls COAP_API functions, library code only "
                "invokes application code through the four callback macros — established for the tree by the static scan (T1), "
@@ -187,6 +206,13 @@ def render(cfgs, sc):
         lb(f["exitsBalanced"]), lb(f["loopsBalanced"]), lb(f["failLeaves"]), lb(f["ordered"]), lb(f["quiet"])) for f in sc["lockfns"]))
     L.append("]")
     L.append("")
+    L.append("/-- every function that has code running under the global lock (entered held / takes it itself), with the number of")
+    L.append("    call sites it executes there and how many of them call a lock-taking public API function -/")
+    L.append("def heldFns : List HeldFn := [")
+    L.append(",\n".join('  { file := %s, name := %s, entersHeld := %s, heldCalls := %d, apiCalls := %d }' % (
+        lstr(f["file"]), lstr(f["name"]), lb(f["entry"] == "held"), f["heldCalls"], f["apiCalls"]) for f in sc["heldfns"]))
+    L.append("]")
+    L.append("")
     L.append("end Coap.Generated")
     return "\n".join(L) + "\n"
 
@@ -209,14 +235,17 @@ def extract(ctx):
         if p["advertised"] and not compiled_in(p):
             ctx.note("configuration %s: coap_threadsafe_is_supported()=1 but locking is not compiled in "
                      "(COAP_THREAD_SAFE defined as '%s', #if taken: %d)" % (n, p["define"], p["if"]))
-    for f in sc["lockfns"]:
+    for f in sc["lockfns"] + sc["heldfns"]:
         for pr in f["problems"]:
             ctx.note("lock balance: %s %s(): %s" % (f["file"], f["name"], pr))
     return ["Generated.buildCfgs (%d configurations)" % len(cfgs), "Generated.apiSites (%d COAP_API wrappers)" % len(sc["api"]),
             "Generated.callbackSites (%d invocation sites, %d of listed types)" % (len(sc["callbacks"]), sum(c["listed"] for c in sc["callbacks"])),
             "Generated.lockWindows (%d functions with lock events of %d scanned: %d COAP_API, %d internal; %d release windows / callback-release sites in functions entered held)"
             % (len(sc["lockfns"]), sc["functions_scanned"], sum(f["api"] for f in sc["lockfns"]), sum(not f["api"] for f in sc["lockfns"]),
-               sum(f["windows"] for f in sc["lockfns"] if f["entryHeld"]))]
+               sum(f["windows"] for f in sc["lockfns"] if f["entryHeld"])),
+            "Generated.heldFns (%d functions with code under the lock: %d entered held, %d taking it; %d call sites under the lock, %d of them to the public API)"
+            % (len(sc["heldfns"]), sum(f["entry"] == "held" for f in sc["heldfns"]), sum(f["entry"] != "held" for f in sc["heldfns"]),
+               sum(f["heldCalls"] for f in sc["heldfns"]), sum(f["apiCalls"] for f in sc["heldfns"]))]
 
 
 # ----------------------------------------------------------------------------------------------- harness
@@ -249,6 +278,7 @@ def harness(ctx):
     txt += "".join("cb %s %s %s %d %d\n" % (c["file"], c["func"], c["callee"], c["k"], c["wrapped"]) for c in sc["callbacks"])
     txt += "".join("win %s %s %d %d %d %d %d %d %d\n" % (f["file"], f["name"], f["entryHeld"], f["windows"], f["exitsBalanced"], f["loopsBalanced"],
                                                           f["failLeaves"], f["ordered"], f["quiet"]) for f in sc["lockfns"])
+    txt += "".join("held %s %s %s %d %d\n" % (f["file"], f["name"], f["entry"], f["heldCalls"], f["apiCalls"]) for f in sc["heldfns"])
     C.write_if_changed(sites, txt)
     cmd = [h0, h1, sites]
     for n, (bd, defs) in b.items():
@@ -263,13 +293,22 @@ def harness(ctx):
 KINDS = ["K", "R", "X", "Y", "W"]      # W = release window of an internal function (coap_lock_unlock … coap_lock_lock)
 
 
+P_STARTUP = 0.06      # application code calls coap_startup() again (token S) — at top level or inside a callback
+
+
 def gen_app(rng, depth, budget, deep):
     out = []
+    if rng.random() < P_STARTUP:
+        out.append("S")
     while budget[0] > 0 and rng.random() < (0.75 if depth == 0 else 0.6):
         budget[0] -= 2
+        if rng.random() < P_STARTUP:
+            out.append("S")
         out.append("L")
         out += gen_lib(rng, depth + 1, budget, deep)
         out.append("U")
+        if rng.random() < P_STARTUP:
+            out.append("S")
         if deep and depth > 0:
             break
     return out
@@ -303,8 +342,12 @@ def generate(ctx, escalate=False):
     out += ["lkapi %s %s" % (a["file"], a["name"]) for a in sc["api"]]
     out += ["lkcb %s %s %s %d" % (c["file"], c["func"], c["callee"], c["k"]) for c in sc["callbacks"]]
     out += ["lkwin %s %s" % (f["file"], f["name"]) for f in sc["lockfns"]]
+    out += ["lkheld %s %s" % (f["file"], f["name"]) for f in sc["heldfns"]]
     out.append("lkctxfail 0")
     out += ["lkeintr 0", "lkeintr 1"]
+    # the real I/O loop doing timer-driven work (4 scenarios) in both lock variants, 1..3 workers
+    for k in range(16 if ctx.thorough() else 8):
+        out.append("lkio %d %d %d %d" % (k & 1, (k >> 1) % 4, rng.randint(1, 3), rng.randrange(1, 1 << 15)))
     nseq = 300000 if ctx.thorough() else 20000
     nsch = 60000 if ctx.thorough() else 5000
     if escalate:
@@ -361,6 +404,24 @@ def judge(ctx, c):
             return ("spec", "lock balance of %s() in %s is broken on some path (%s): %s" % (
                 w[2] if len(w) > 2 else "?", w[1] if len(w) > 1 else "?", ",".join(badk), "; ".join(window_problems(w[1:3])) or i))
         return None if i == m else ("tie", "scan fact differs from Generated.lockWindows: %s vs %s" % (i, m))
+    if op == "lkheld":
+        f = dict(kv.split("=", 1) for kv in i.split() if "=" in kv)
+        if f.get("api_calls") != "0":
+            w = c["input"].split()
+            return ("spec", "library code calls the lock-taking public API while it holds the global lock (in library code "
+                            "in_callback is 0, so coap_lock_lock() waits for the mutex of its own thread: self-deadlock, after which "
+                            "every API call of every thread blocks): %s" % ("; ".join(held_problems(w[1:3])) or i))
+        return None if i == m else ("tie", "scan fact differs from Generated.heldFns: %s vs %s" % (i, m))
+    if op == "lkio":
+        if i != "ok":
+            w = c["input"].split()
+            scen = {"0": "keepalive ping of an idle UDP client session", "1": "keepalive of an idle TCP client session (ping/pong handlers)",
+                    "2": "retransmission of an unanswered CON (event callback)", "3": "expiry of an idle server session (event callback)"}.get(w[2] if len(w) > 2 else "", "?")
+            kind = "spec" if (i.startswith("stuck") or i.startswith("unserialised")) else "tie"
+            return (kind, "the I/O thread did timer-driven work in coap_io_process() (%s) while %s worker thread(s) called the public "
+                          "API (among it a repeated coap_startup()) and every callback re-entered it: every call must complete, "
+                          "serialised; observed: %s%s" % (scen, w[3] if len(w) > 3 else "?", i, static_hint()))
+        return None if i == m else ("tie", "differs from M: %s vs %s" % (i, m))
     if op == "lkeintr":
         if i != "ok":
             return ("spec" if i.startswith("unserialised") else "tie",
@@ -401,6 +462,9 @@ def judge(ctx, c):
             return None if i == m else ("tie", "nesting check differs: %s vs %s" % (i, m))
         iw = i.split()
         fin = iw[-1][4:].split(",") if iw and iw[-1].startswith("fin:") else []
+        ov = sched_overlap(c["input"], iw[:-1]) if fin else None
+        if ov:
+            return ("spec", ov)
         # (the value of global_lock.pid after the last unlock is not prescribed by the property)
         if len(fin) != 5 or fin[1:] != ["0", "0", "0", "0"]:
             return ("spec", "the threads did not all complete with the lock free and balanced: " + (iw[-1] if iw else i))
@@ -410,6 +474,53 @@ def judge(ctx, c):
                 return ("spec", "turn %d: an assert() of the lock code fails" % k)
         return None if i == m else ("tie", "schedule run differs from M: %s vs %s" % (i[:200], m[:200]))
     return ("tie", "unknown op")
+
+
+def sched_overlap(line, turns):
+    """I-vs-property (critical_sections_exclusive), from the nesting and the implementation's own answers alone: replay
+    which thread executed which token (a turn answered `blk` executed nothing) and look for a moment at which two
+    threads are both under the lock — in library code or in a callback invoked with the lock kept."""
+    w = line.split()
+    if len(w) != 4:
+        return None
+    progs = [[t for t in p.split(",") if t] for p in w[2].split("/")]
+    try:
+        sched = [int(x) for x in w[3].split(",")]
+    except ValueError:
+        return None
+    if len(sched) != len(turns):
+        return None
+    pos = [0] * len(progs)
+    stack = [[] for _ in progs]
+    for k, (t, o) in enumerate(zip(sched, turns)):
+        if o == "blk" or t >= len(progs) or pos[t] >= len(progs[t]):
+            continue
+        tok = progs[t][pos[t]]
+        pos[t] += 1
+        if tok == "L":
+            stack[t].append("api")
+        elif tok == "U" or tok.endswith("-"):
+            if stack[t]:
+                stack[t].pop()
+        elif tok.endswith("+"):
+            stack[t].append(tok[0])
+        under = [u for u, st in enumerate(stack) if st and st[-1] in ("api", "K", "R")]
+        if len(under) > 1:
+            return ("turn %d (thread %d executed %s): threads %s are inside the library / a lock-keeping callback at the same "
+                    "time — library state is not accessed by one thread at a time" % (k, t, tok, " and ".join(map(str, under))))
+    return None
+
+
+def held_problems(key):
+    """the scan's descriptions of the public-API calls function (file, name) makes under the lock"""
+    try:
+        sc = t1()[2]
+    except Exception:
+        return []
+    for f in sc["heldfns"]:
+        if [f["file"], f["name"]] == list(key):
+            return f["problems"]
+    return []
 
 
 def window_problems(key):
@@ -430,7 +541,7 @@ def static_hint():
         sc = t1()[2]
     except Exception:
         return ""
-    pr = ["%s %s(): %s" % (f["file"], f["name"], p) for f in sc["lockfns"] for p in f["problems"]]
+    pr = ["%s %s(): %s" % (f["file"], f["name"], p) for f in sc["lockfns"] + sc["heldfns"] for p in f["problems"]]
     return ("; static scan: " + "; ".join(pr[:6])) if pr else ""
 
 
@@ -448,7 +559,7 @@ def known(ctx, c):
 
 def nontrivial(c):
     w = c["input"].split()
-    if w[0] in ("lkcfg", "lkapi", "lkcb", "lkwin", "lkctxfail", "lkeintr"):
+    if w[0] in ("lkcfg", "lkapi", "lkcb", "lkwin", "lkheld", "lkctxfail", "lkeintr", "lkio"):
         return True
     if w[0] in ("lkseq", "lksched"):
         return "L" in c["input"] and "+" in c["input"]
